@@ -1,6 +1,237 @@
 import Fabio.Driver.Proto
+import Fabio.Driver.RouteJson
+import Fabio.Model.Route
+import Fabio.Model.C03
+import Fabio.Model.C03Spec
 namespace Fabio.Driver.C03
-open Lean Fabio.Driver
+open Lean Fabio Fabio.Driver Fabio.Driver.RouteJson Fabio.Model.Route Fabio.Model.C03 Fabio.Model.C03Spec
 
-def streams : List (String × Handler) := []
+def errName : Err → String
+  | .invalidPrefix => "invalidPrefix" | .invalidTarget => "invalidTarget" | .badURL => "badURL"
+  | .badGlob => "badGlob" | .noMatch => "noMatch" | .invalidCommand => "invalidCommand"
+
+def S (s : Str) : String := String.ofList s
+
+/-- `{pattern: bool}` oracle object → function (missing = `none`) -/
+def oracleFn (j : Json) (k : String) : Str → Option Bool :=
+  let o := (j.getObjVal? k).toOption.getD (Json.mkObj [])
+  fun p => match o.getObjVal? (S p) with
+    | .ok (.bool b) => some b
+    | _ => none
+
+/-- the glob used by model and spec: the fragment model where it applies, else the oracle
+(real gobwas/glob evaluated by the harness on exactly this pattern and subject) -/
+def globOf (orc : Str → Option Bool) (p s : Str) : Bool :=
+  if inFragment p then globLib p s else (orc p).getD false
+
+/-- every oracle entry whose pattern lies in the fragment must equal the fragment model -/
+def oracleConsistent (j : Json) (k : String) (subject : Str) : Bool :=
+  match (j.getObjVal? k).toOption with
+  | some (.obj m) => m.toList.all (fun (p, v) =>
+      !inFragment p.toList || (match v with | .bool b => globLib p.toList subject == b | _ => true))
+  | _ => true
+
+def kindOf (s : String) : Except String MatcherKind :=
+  if s == "prefix" then .ok .pfx else if s == "iprefix" then .ok .iprefix else if s == "glob" then .ok .glob
+  else .error s!"unknown matcher {s}"
+
+def skeletonOf (t : Table) : Skeleton := t.map (fun kv => (kv.1, kv.2.map (fun r => (r.path, r.targets.length))))
+
+def skeletonJson (s : Skeleton) : Json :=
+  Json.arr (s.map (fun kv => Json.mkObj [("host", str kv.1),
+    ("routes", Json.arr (kv.2.map (fun pn => Json.mkObj [("path", str pn.1), ("n", Json.num pn.2)])).toArray)])).toArray
+
+def sortSkeleton (s : Skeleton) : Skeleton :=
+  s.foldr (fun kv acc =>
+    let rec ins : Skeleton → Skeleton
+      | [] => [kv]
+      | x :: xs => if strLt kv.1 x.1 then kv :: x :: xs else x :: ins xs
+    ins acc) []
+
+def parseSkeleton (j : Json) : Except String Skeleton := do
+  let a ← j.getArr?
+  a.toList.mapM (fun h => do
+    let host ← getStr h "host"
+    let rs ← h.getObjValAs? (Array Json) "routes"
+    let rs ← rs.toList.mapM (fun r => do
+      let p ← getStr r "path"
+      let n ← r.getObjValAs? Nat "n"
+      return (p, n))
+    return (host, rs))
+
+def isPanic (impl : Json) : Bool := (impl.getObjVal? "panic").toOption.isSome
+
+def hasUpper (s : Str) : Bool := s.any (fun c => 'A' ≤ c ∧ c ≤ 'Z')
+
+def kindName : MatcherKind → String
+  | .pfx => "prefix" | .iprefix => "iprefix" | .glob => "glob"
+
+/-- class of a specification failure: one tag per failing class (HOWTO) -/
+def failTag (c : Case) (ans : Option (Str × Str)) (v : Judgement) : String :=
+  match v with
+  | .ok => "ok"
+  | .panicked => "lookup-panics"
+  | .unsound => "answer-not-a-candidate"
+  | .notRouted cand =>
+    if c.globDisabled && hasUpper c.host && !cand.1.isEmpty then "noglob-uppercase-host" else "candidate-not-routed"
+  | .lessSpecific b w =>
+    if c.globDisabled && hasUpper c.host && w == .hostClass then "noglob-uppercase-host" else
+    match w with
+    | .hostClass =>
+      if b.1.isEmpty then "impossible" else
+      if hostClass c b.1 == 2 then
+        (match ans with
+         | some a => if starSuffix (norm c a.1) == some (norm c c.host) then "wildcard-without-dot"
+                     else if a.1.isEmpty then "hostless-before-host" else "exact-host-lost-to-pattern"
+         | none => "impossible")
+      else "hostless-before-host"
+    | .hostSuffix => "shorter-host-suffix-won"
+    | .pathLength => "shorter-path-won-" ++ kindName c.kind
+
+def lookupH : Handler := fun inp impl => do
+  let defs ← (do let a ← inp.getObjValAs? (Array Json) "defs"; a.toList.mapM routeDef)
+  let orc := (impl.getObjVal? "oracle").toOption.getD (Json.mkObj [])
+  let env := envOf orc
+  let host ← getStr inp "host"
+  let path ← getStr inp "path"
+  let tls := (inp.getObjValAs? Bool "tls").toOption.getD false
+  let noglob := (inp.getObjValAs? Bool "noglob").toOption.getD false
+  let kind ← kindOf ((inp.getObjValAs? String "matcher").toOption.getD "prefix")
+  let hostGlob := globOf (oracleFn orc "hostglob")
+  let pathGlob := globOf (oracleFn orc "pathglob")
+  match newTable env defs with
+  | .error e =>
+    let m := Json.mkObj [("error", errName e)]
+    if isPanic impl then
+      return ({ model := m, agree := false, spec := false, nontrivial := false, tag := "lookup-panics" } : Verdict).toJson
+    return ({ model := m, agree := (impl.getObjVal? "error").toOption == some (Json.str (errName e)), spec := true,
+              nontrivial := false, tag := "err-" ++ errName e } : Verdict).toJson
+  | .ok t =>
+    let cfg : Cfg := { globMatch := hostGlob, pathMatch := pathMatch pathGlob kind,
+                       pick := fun r => r.targets.headD { service := [], tags := [], opts := [], url := [], fixedWeight := 0 },
+                       globDisabled := noglob }
+    let req : Req := { host, tls, path }
+    let hosts := (hostList cfg t req).dropLast
+    let res := Lookup cfg t req
+    let mres : Json := match res with
+      | none => Json.null
+      | some (_, r, _) => Json.mkObj [("host", str r.host), ("path", str r.path)]
+    let m := Json.mkObj [("table", skeletonJson (sortSkeleton (skeletonOf t))), ("hosts", Json.arr (hosts.map str).toArray), ("res", mres)]
+    if isPanic impl then
+      return ({ model := m, agree := false, spec := false, nontrivial := true, tag := "lookup-panics" } : Verdict).toJson
+    if (impl.getObjVal? "error").toOption.isSome then
+      return ({ model := m, agree := false, spec := true, nontrivial := false, tag := "impl-build-error" } : Verdict).toJson
+    let itab ← parseSkeleton ((impl.getObjVal? "table").toOption.getD (Json.arr #[]))
+    let ihosts ← strList ((impl.getObjVal? "hosts").toOption.getD .null)
+    let ires := (impl.getObjVal? "res").toOption.getD .null
+    let ians : Option (Str × Str) := match ires with
+      | .null => none
+      | j => some (getStrD j "host", getStrD j "path")
+    -- correspondence
+    let tabOK := sortSkeleton (skeletonOf t) == itab
+    let hostsOK := hosts == ihosts
+    let resOK := match res, ians with
+      | none, none => true
+      | some (_, r, _), some a => r.host == a.1 && r.path == a.2 &&
+          r.targets.any (fun tg => tg.service == getStrD ires "service" && tg.url == getStrD ires "url")
+      | _, _ => false
+    let globOK := oracleConsistent orc "hostglob" (normalizeHost host tls) && oracleConsistent orc "pathglob" path
+    -- specification on the implementation's table and answer
+    let c : Case := { table := itab, host, tls, path, kind, globDisabled := noglob, hostGlob, pathGlob }
+    let v := judge c ians
+    let specOK := match v with | .ok => true | _ => false
+    let nc := (candidates c).length
+    let tag :=
+      if !specOK then failTag c ians v
+      else if !globOK then "glob-fragment-model-differs"
+      else if !tabOK then "table-differs"
+      else if !hostsOK then "host-list-differs"
+      else if !resOK then "answer-differs"
+      else
+        kindName kind ++ (if noglob then "-noglob" else "-glob") ++
+          (match ians with
+           | none => "-none"
+           | some a => if a.1.isEmpty then "-hostless" else if hostClass c a.1 == 1 then "-wildcard" else "-exact") ++
+          (if nc ≥ 2 then "-multi" else "")
+    return ({ model := m, agree := tabOK && hostsOK && resOK && globOK, spec := specOK, nontrivial := nc ≥ 2, tag } : Verdict).toJson
+
+/-- `LookupHost`: exact lower-cased key, prefix matcher on "/". Specification: the answer's route is keyed
+by exactly the lower-cased host and its path is a prefix of "/"; if such a route with a target exists the
+connection is routed. -/
+def lookupHostH : Handler := fun inp impl => do
+  let defs ← (do let a ← inp.getObjValAs? (Array Json) "defs"; a.toList.mapM routeDef)
+  let orc := (impl.getObjVal? "oracle").toOption.getD (Json.mkObj [])
+  let env := envOf orc
+  let host ← getStr inp "host"
+  match newTable env defs with
+  | .error e =>
+    let m := Json.mkObj [("error", errName e)]
+    if isPanic impl then
+      return ({ model := m, agree := false, spec := false, nontrivial := false, tag := "lookup-panics" } : Verdict).toJson
+    return ({ model := m, agree := (impl.getObjVal? "error").toOption == some (Json.str (errName e)), spec := true,
+              nontrivial := false, tag := "err-" ++ errName e } : Verdict).toJson
+  | .ok t =>
+    let pick := fun (r : Route) => r.targets.headD { service := [], tags := [], opts := [], url := [], fixedWeight := 0 }
+    let res := LookupHost pick t host
+    let mres : Json := match res with
+      | none => Json.null
+      | some (r, _) => Json.mkObj [("host", str r.host), ("path", str r.path)]
+    let m := Json.mkObj [("table", skeletonJson (sortSkeleton (skeletonOf t))), ("res", mres)]
+    if isPanic impl then
+      return ({ model := m, agree := false, spec := false, nontrivial := true, tag := "lookup-panics" } : Verdict).toJson
+    if (impl.getObjVal? "error").toOption.isSome then
+      return ({ model := m, agree := false, spec := true, nontrivial := false, tag := "impl-build-error" } : Verdict).toJson
+    let itab ← parseSkeleton ((impl.getObjVal? "table").toOption.getD (Json.arr #[]))
+    let ires := (impl.getObjVal? "res").toOption.getD .null
+    let ians : Option (Str × Str) := match ires with
+      | .null => none
+      | j => some (getStrD j "host", getStrD j "path")
+    let tabOK := sortSkeleton (skeletonOf t) == itab
+    let resOK := match res, ians with
+      | none, none => true
+      | some (r, _), some a => r.host == a.1 && r.path == a.2 &&
+          r.targets.any (fun tg => tg.service == getStrD ires "service" && tg.url == getStrD ires "url")
+      | _, _ => false
+    let key := lowerL host
+    let cands : List (Str × Str) := itab.flatMap (fun kv => kv.2.filterMap (fun pn =>
+      if kv.1 == key && pn.2 > 0 && pn.1.isPrefixOf ['/'] then some (kv.1, pn.1) else none))
+    let specOK := match ians with
+      | none => cands.isEmpty
+      | some a => cands.contains a && cands.all (fun b => byteLen b.2 ≤ byteLen a.2)
+    let tag := if !specOK then (if ians.isNone then "host-not-routed" else "wrong-host-route")
+      else if !tabOK then "table-differs" else if !resOK then "answer-differs"
+      else if ians.isSome then "routed" else "none"
+    return ({ model := m, agree := tabOK && resOK, spec := specOK, nontrivial := !cands.isEmpty, tag } : Verdict).toJson
+
+/-- is `a` a permutation of `b` (strings) -/
+def isPermOf (a b : List Str) : Bool :=
+  a.length == b.length && a.all (fun x => a.count x == b.count x)
+
+/-- `ReverseHostPort` on every string and `sortHostsReverseHostPort` on the list. -/
+def reverseH : Handler := fun inp impl => do
+  let hs ← strList ((inp.getObjVal? "hosts").toOption.getD .null)
+  let rev := hs.map reverseHostPort
+  let sorted := sortHosts hs
+  let m := Json.mkObj [("rev", Json.arr (rev.map str).toArray), ("sorted", Json.arr (sorted.map str).toArray)]
+  let isorted ← strList ((impl.getObjVal? "sorted").toOption.getD .null)
+  -- every key keeps its identity through the sort (the lossy double reversal is repaired); `plain` only
+  -- classifies the case: keys that `ReverseHostPort` maps back to themselves
+  let plain := hs.all (fun h => reverseHostPort (reverseHostPort h) == h)
+  let specOK := !isPanic impl && isPermOf isorted hs
+  let tag := if isPanic impl then "panics" else if !specOK then "sort-loses-a-key"
+    else if !plain then "degenerate-key" else if hs.length < 2 then "short" else "sorted"
+  return ({ model := m, agree := m == impl, spec := specOK, nontrivial := hs.length ≥ 2 && plain, tag } : Verdict).toJson
+
+/-- the glob fragment model against gobwas/glob -/
+def globH : Handler := fun inp impl => do
+  let p ← getStr inp "pattern"
+  let s ← getStr inp "s"
+  if !inFragment p then
+    return ({ model := impl, agree := true, spec := true, nontrivial := false, tag := "outside-fragment" } : Verdict).toJson
+  let m := Json.mkObj [("match", globLib p s), ("compiled", true)]
+  return ({ model := m, agree := m == impl, spec := true, nontrivial := p.contains '*' || p.contains '?',
+            tag := if globFrag p s then "match" else if gobwasQuirk p s then "gobwas-quirk-match" else "nomatch" } : Verdict).toJson
+
+def streams : List (String × Handler) :=
+  [("c03.lookup", lookupH), ("c03.lookuphost", lookupHostH), ("c03.reverse", reverseH), ("c03.glob", globH)]
 end Fabio.Driver.C03
